@@ -17,6 +17,20 @@ def rapid(name, test, quick, thorough, **kw):
     return d
 
 CHECKS = {
+    "C08": {
+        "level": "exploration",
+        "phases": [
+            rapid("hist", "TestProp",
+                  {"checks": 400, "shards": 12, "timeout": 400},
+                  {"checks": 8000, "shards": 16, "timeout": 2400}),
+            rapid("conc", "TestConc",
+                  {"checks": 60, "shards": 6, "timeout": 400},
+                  {"checks": 1500, "shards": 12, "timeout": 2400}, replay_test="TestReplayConc", seed_offset=1),
+            plain("known", "TestKnown",
+                  {"shards": 1, "timeout": 120},
+                  {"shards": 1, "timeout": 120}),
+        ],
+    },
     "C09": {
         "level": "fault_enumeration",
         "phases": [
